@@ -98,22 +98,22 @@ theorem table_total (ht i : Nat) (e : Edit) : Committed ht i e = !Uncommitted ht
   unfold Uncommitted; simp
 
 /-- an `Uncommitted` edit leaves every committed part of every transaction as it was -/
-theorem uncommitted_edit_agree (ht i : Nat) (e : Edit) (t : Tx) (h : Uncommitted ht i e = true) :
-    Agree ht i t (apply e t) :=
-  uncommitted_agree ht i e t (by simpa [Uncommitted] using h)
+theorem uncommitted_edit_agree (ht i : Nat) (e : Edit) (t : Tx) (h : Uncommitted ht i e = true)
+    (hsafe : insertSafe i e t = true) : Agree ht i t (apply e t) :=
+  uncommitted_agree ht i e t (by simpa [Uncommitted] using h) hsafe
 
 /-- **uncommitted_edit_preserves.**  Changes confined to parts the hash type leaves uncommitted do
     not change the signature hash: digest-level equality (and same error indication) for every
     transaction, script code, index and hash-type value, without any hypothesis. -/
 theorem uncommitted_edit_preserves (sc : Bytes) (t : Tx) (i ht : Nat) (e : Edit)
-    (h : Uncommitted ht i e = true) :
+    (h : Uncommitted ht i e = true) (hsafe : insertSafe i e t = true) :
     legacySighash sc (apply e t) i ht = legacySighash sc t i ht :=
-  agree_sighash_eq sc t (apply e t) i ht (uncommitted_edit_agree ht i e t h)
+  agree_sighash_eq sc t (apply e t) i ht (uncommitted_edit_agree ht i e t h hsafe)
 
 /-- only `Committed` edits can change a committed part -/
-theorem changes_only_if_committed (ht i : Nat) (e : Edit) (t : Tx) (h : changes ht i e t) :
-    Committed ht i e = true :=
-  committed_of_changes h
+theorem changes_only_if_committed (ht i : Nat) (e : Edit) (t : Tx) (h : changes ht i e t)
+    (hsafe : insertSafe i e t = true) : Committed ht i e = true :=
+  committed_of_changes h hsafe
 
 /-- **committed_edit_changes.**  A `Committed` edit that changes a committed part of the transaction
     changes the hashed message (regular case before and after, fields in wire range before and
@@ -153,9 +153,9 @@ theorem committed_field_edit_changes (ht i : Nat) (e : Edit) (t : Tx) (hC : Comm
 /-- … inserting / removing an input (without ANYONECANPAY) or an output (mode ALL) at an existing
     position: always (the count is committed). -/
 theorem committed_count_edit_changes (ht i : Nat) (t : Tx) :
-    (∀ k x, isAnyoneCanPay ht = false → k ≤ t.vin.length → changes ht i (.insertInput k x) t) ∧
+    (∀ k x, isAnyoneCanPay ht = false → changes ht i (.insertInput k x) t) ∧
     (∀ k, isAnyoneCanPay ht = false → k < t.vin.length → changes ht i (.removeInput k) t) ∧
-    (∀ k o, isAll ht = true → k ≤ t.vout.length → changes ht i (.insertOutput k o) t) ∧
+    (∀ k o, isAll ht = true → changes ht i (.insertOutput k o) t) ∧
     (∀ k, isAll ht = true → k < t.vout.length → changes ht i (.removeOutput k) t) :=
   changes_of_count_edit
 
@@ -201,6 +201,26 @@ theorem table_depends_on_mode_only (ht ht' i : Nat) (hm : ht % 32 = ht' % 32)
   have h3 : isAnyoneCanPay ht = isAnyoneCanPay ht' := by
     unfold isAnyoneCanPay SIGHASH_ANYONECANPAY; rw [ha]
   cases p <;> simp [committed, isAll, h1, h2, h3]
+
+/-! ### the catalogue and Python's list mutation -/
+
+theorem swapAt_none {α} (xs : List α) (k l : Nat) (h : ¬ (k < xs.length ∧ l < xs.length)) : swapAt xs k l = xs := by
+  unfold swapAt
+  by_cases hk : k < xs.length
+  · have hl : ¬ l < xs.length := fun hl => h ⟨hk, hl⟩
+    rw [List.getElem?_eq_none (by omega : xs.length ≤ l)]
+    cases xs[k]? <;> rfl
+  · rw [List.getElem?_eq_none (by omega : xs.length ≤ k)]
+
+/-- an edit Python cannot carry out (IndexError) leaves the transaction as it was -/
+theorem apply_not_applicable (e : Edit) (t : Tx) (h : applicable e t = false) : apply e t = t := by
+  cases e <;> simp only [applicable, decide_eq_false_iff_not, Nat.not_lt, Bool.and_eq_false_iff] at h <;>
+    simp only [apply]
+  all_goals first
+    | (rw [List.modify_eq_self (by omega)])
+    | (rw [List.eraseIdx_of_length_le (by omega)])
+    | (rw [swapAt_none _ _ _ (by omega)])
+    | cases h
 
 /-! ### non-vacuity of Part 1 -/
 
@@ -257,6 +277,16 @@ example : ¬ changes 3 1 (.setValue 1 2000) exTx := by
 /-- swapping two inputs that differ is seen under ALL; under ANYONECANPAY only if `i` is involved -/
 example : changedParts 1 1 exTx (apply (.swapInputs 0 2) exTx) ≠ [] ∧
     changedParts 0x81 1 exTx (apply (.swapInputs 0 2) exTx) = [] := by decide
+
+/-- insertion beyond the end appends (Python `list.insert`); removal / field writes beyond the end are
+    not applicable (IndexError) and leave the transaction unchanged -/
+example : apply (.insertInput 7 ⟨⟨[], 0⟩, [], 0⟩) exTx = { exTx with vin := exTx.vin ++ [⟨⟨[], 0⟩, [], 0⟩] } := by decide
+example : applicable (.removeInput 3) exTx = false ∧ apply (.removeInput 3) exTx = exTx := by decide
+/-- why `insertSafe`: signing input 3 of a 3-input transaction (the "return one" case) under ANYONECANPAY,
+    `insertInput 4` is `Uncommitted` by the table (4 > 3) but appends at position 3, creating input 3 -/
+example : Uncommitted 0x81 3 (.insertInput 4 ⟨⟨[], 0⟩, [], 0⟩) = true ∧
+    insertSafe 3 (.insertInput 4 ⟨⟨[], 0⟩, [], 0⟩) exTx = false ∧
+    ¬ Regular 0x81 3 exTx ∧ Regular 0x81 3 (apply (.insertInput 4 ⟨⟨[], 0⟩, [], 0⟩) exTx) := by decide
 
 /-! ## PART 2 — acceptance: the interpreter model of C06 on the standard templates
 
@@ -467,19 +497,28 @@ end templates
   of `tx`.  For every template:
     * an edit that is `Uncommitted` for the hash type of the signature(s) leaves the verdict unchanged
       (no assumption at all);
-    * a `Committed` edit that changes a committed part turns acceptance into `VerifyScriptError`,
-      PROVIDED (hypotheses, the cryptographic half) SHA-256d does not collide on the two hashed
-      messages (`hcr` — with it the table theorems give "the new digest differs from the signed one")
-      and the old signature does not verify for THAT new digest (`hunf`: one instance, for the one
-      digest of the edited transaction, conditional on its being different).  `hunf` is the
-      unforgeability assumption for this instance — an adversary who edits a committed part and keeps
-      the signature has produced a signature on a new message.  It is NOT assumed that a signature is
-      valid for a single digest only: that is false for ECDSA (a signature (r, s) valid for z under the
-      secret d is also valid for −z − 2rd mod n, and for z + n when that is below 2^256; audit F1);
-      `hunf` holds for all but those ≤ 2 exceptional values of the new digest, which an editor of the
-      transaction can hit only by inverting SHA-256d.  Supplying the plain fact
-      `ecdsa body key (new digest) = false` discharges `hunf` (and then `hcr` and the table hypotheses
-      are not needed at all: that degenerate form is `template_rejects_wrong_key_*`). -/
+    * (an edit that is `Uncommitted` needs the side condition `insertSafe`: an insertion beyond the
+      end appends, which is "after position i" only if position i exists);
+    * for a `Committed` edit that changes a committed part, WHAT IS PROVED is exactly this and no more:
+        (a) the digest of the edited transaction differs from the original one, given `hcr`
+            (SHA-256d does not collide on the two hashed messages) — `committed_edit_changes_digest`;
+        (b) a signature that the verifier does not accept for the digest at hand is rejected by the
+            template with VerifyScriptError — `template_rejects_wrong_key_*`.
+      The `*_committed_edit_rejects` theorems are the composition of (a) and (b) through the
+      hypothesis `hunf : new digest ≠ old digest → ecdsa body key (new digest) = false`.  Under the size
+      hypotheses the CONSEQUENT of `hunf` is equivalent to the conclusion (`*_verify`: verdict =
+      `if ecdsa … then ok else VerifyScriptError`), so these theorems add to (a) only the plumbing (b):
+      they say "IF the old signature does not verify for the new, different digest THEN the spend is
+      rejected".  That the old signature does not verify for a new digest is ECDSA unforgeability for
+      that instance; it is assumed, never proved, and it is NOT the blanket claim "a signature is valid
+      for one digest only", which is false for ECDSA: (r, s) valid for z under secret d also verifies
+      for −z − 2rd mod n, and every digest has the representatives z and z + n below 2^256; with the
+      abscissa candidates r and r + n this leaves at most a handful (≤ 8) of exceptional 256-bit values
+      of the new digest for which `hunf` fails, which an editor of the transaction can hit only by
+      inverting SHA-256d (audit 1 F1, audit 2 F1).
+      `*_committed_edit_rejects` do not assume that the signature was valid for the ORIGINAL
+      transaction; `*_committed_edit_flips` add that (`horacle`, ECDSA correctness of the signer, also
+      assumed) and conclude "accepted before ∧ rejected after". -/
 
 section edits
 open BtcVerif.Model.ScriptEval BtcVerif.Spec.Script BtcVerif.Spec.Templates BtcVerif.C05T
@@ -489,17 +528,18 @@ theorem txCtx_sigTotal : (txCtx hashes ecdsa tx i).SigTotal := ⟨fun _ _ _ _ _ 
 
 /-- the signature oracle of the edited transaction agrees with that of the original on every
     signature whose hash type leaves the edit uncommitted -/
-theorem sigCheck_uncommitted_edit (body key sc : Bytes) (ht : Nat) (h : Uncommitted ht i e = true) :
+theorem sigCheck_uncommitted_edit (body key sc : Bytes) (ht : Nat) (h : Uncommitted ht i e = true)
+    (hsafe : insertSafe i e tx = true) :
     (txEnv hashes ecdsa (apply e tx) i).sigCheck body key sc ht = (txEnv hashes ecdsa tx i).sigCheck body key sc ht := by
-  simp only [txEnv, uncommitted_edit_preserves sc tx i ht e h]
+  simp only [txEnv, uncommitted_edit_preserves sc tx i ht e h hsafe]
 
 theorem chkSig_uncommitted_edit (sc sig key : Bytes)
-    (h : ∀ ht, sig.getLast? = some ht → Uncommitted ht.toNat i e = true) :
+    (h : ∀ ht, sig.getLast? = some ht → Uncommitted ht.toNat i e = true) (hsafe : insertSafe i e tx = true) :
     chkSig (txEnv hashes ecdsa (apply e tx) i) sc sig key = chkSig (txEnv hashes ecdsa tx i) sc sig key := by
   unfold chkSig
   cases hl : sig.getLast? with
   | none => rfl
-  | some ht => exact sigCheck_uncommitted_edit hashes ecdsa tx i e _ _ _ _ (h ht hl)
+  | some ht => exact sigCheck_uncommitted_edit hashes ecdsa tx i e _ _ _ _ (h ht hl) hsafe
 
 /-- the oracle of the edited transaction rejects what was accepted, under the two cryptographic
     hypotheses -/
@@ -519,18 +559,18 @@ theorem sigCheck_committed_edit (body key sc : Bytes) (ht : Nat)
 
 theorem p2pk_uncommitted_edit_same_verdict (body : Bytes) (ht : UInt8) (key : Bytes)
     (hfl : fl.admissible = true) (hk : key.length < 0x4c) (hs : body.length + 1 < 0x4c)
-    (hne : body.length + 1 ≠ key.length) (hU : Uncommitted ht.toNat i e = true) :
+    (hne : body.length + 1 ≠ key.length) (hU : Uncommitted ht.toNat i e = true) (hsafe : insertSafe i e tx = true) :
     verifyScript (txCtx hashes ecdsa (apply e tx) i) fl (p2pkScriptSig (body ++ [ht])) (p2pkScript key) =
       verifyScript (txCtx hashes ecdsa tx i) fl (p2pkScriptSig (body ++ [ht])) (p2pkScript key) := by
   rw [p2pk_verify _ fl body ht key hfl (txCtx_sigTotal ..) hk hs hne,
     p2pk_verify _ fl body ht key hfl (txCtx_sigTotal ..) hk hs hne]
   show (if (txEnv hashes ecdsa (apply e tx) i).sigCheck _ _ _ _ = true then _ else _) = _
-  rw [sigCheck_uncommitted_edit hashes ecdsa tx i e _ _ _ _ hU]
+  rw [sigCheck_uncommitted_edit hashes ecdsa tx i e _ _ _ _ hU hsafe]
   rfl
 
 theorem p2pkh_uncommitted_edit_same_verdict (body : Bytes) (ht : UInt8) (key : Bytes)
     (hfl : fl.admissible = true) (hk : key.length < 0x4c) (hs : body.length + 1 < 0x4c)
-    (hhl : (hashes.hash160 key).length = 20) (hne : body.length + 1 ≠ 20) (hU : Uncommitted ht.toNat i e = true) :
+    (hhl : (hashes.hash160 key).length = 20) (hne : body.length + 1 ≠ 20) (hU : Uncommitted ht.toNat i e = true) (hsafe : insertSafe i e tx = true) :
     verifyScript (txCtx hashes ecdsa (apply e tx) i) fl (p2pkhScriptSig (body ++ [ht]) key)
         (p2pkhScript (hashes.hash160 key)) =
       verifyScript (txCtx hashes ecdsa tx i) fl (p2pkhScriptSig (body ++ [ht]) key)
@@ -541,14 +581,15 @@ theorem p2pkh_uncommitted_edit_same_verdict (body : Bytes) (ht : UInt8) (key : B
   rw [show (txCtx hashes ecdsa tx i).env.hashes.hash160 key = hashes.hash160 key from rfl] at e2
   rw [e1, e2]
   show (if (txEnv hashes ecdsa (apply e tx) i).sigCheck _ _ _ _ = true then _ else _) = _
-  rw [sigCheck_uncommitted_edit hashes ecdsa tx i e _ _ _ _ hU]
+  rw [sigCheck_uncommitted_edit hashes ecdsa tx i e _ _ _ _ hU hsafe]
   rfl
 
 theorem multisig_uncommitted_edit_same_verdict (m : Nat) (keys sigs : List Bytes)
     (hfl : fl.admissible = true) (hm1 : 1 ≤ m) (hmn : m ≤ keys.length) (hn : keys.length ≤ 20)
     (hsl : sigs.length = m) (hk : ∀ k ∈ keys, k.length < 0x4c) (hs : ∀ s ∈ sigs, s.length < 0x4c)
     (hs1 : ∀ s ∈ sigs, s.length ≠ 1) (hne : ∀ s ∈ sigs, ∀ k ∈ keys, s.length ≠ k.length)
-    (hU : ∀ s ∈ sigs, ∀ ht, s.getLast? = some ht → Uncommitted ht.toNat i e = true) :
+    (hU : ∀ s ∈ sigs, ∀ ht, s.getLast? = some ht → Uncommitted ht.toNat i e = true)
+    (hsafe : insertSafe i e tx = true) :
     verifyScript (txCtx hashes ecdsa (apply e tx) i) fl (multisigScriptSig sigs) (multisigScript m keys) =
       verifyScript (txCtx hashes ecdsa tx i) fl (multisigScriptSig sigs) (multisigScript m keys) := by
   rw [verify_multisig _ fl m keys sigs hfl (txCtx_sigTotal ..) hm1 hmn hn hsl hk hs hs1 hne,
@@ -557,10 +598,10 @@ theorem multisig_uncommitted_edit_same_verdict (m : Nat) (keys sigs : List Bytes
       greedy (chkSig (txCtx hashes ecdsa tx i).env (multisigScript m keys)) sigs.reverse keys.reverse := by
     apply greedy_congr
     intro s hs' k
-    exact chkSig_uncommitted_edit hashes ecdsa tx i e _ s k (hU s (by simpa using hs'))
+    exact chkSig_uncommitted_edit hashes ecdsa tx i e _ s k (hU s (by simpa using hs')) hsafe
   rw [this]
 
-/-! ### committed edits: acceptance becomes rejection (under the cryptographic hypotheses) -/
+/-! ### committed edits: the kept signature is rejected if it does not verify for the new digest -/
 
 theorem p2pk_committed_edit_rejects (body : Bytes) (ht : UInt8) (key : Bytes)
     (hfl : fl.admissible = true) (hk : key.length < 0x4c) (hs : body.length + 1 < 0x4c)
@@ -655,7 +696,7 @@ theorem multisig_committed_edit_rejects (m : Nat) (keys sigs : List Bytes)
 
 theorem p2sh_p2pkh_uncommitted_edit_same_verdict (body : Bytes) (ht : UInt8) (key : Bytes)
     (hfl : fl.admissible = true) (hp : fl.p2sh = true) (hk : key.length < 0x4c) (hs : body.length + 1 < 0x4c)
-    (hhl : ∀ x, (hashes.hash160 x).length = 20) (hne : body.length + 1 ≠ 20) (hU : Uncommitted ht.toNat i e = true) :
+    (hhl : ∀ x, (hashes.hash160 x).length = 20) (hne : body.length + 1 ≠ 20) (hU : Uncommitted ht.toNat i e = true) (hsafe : insertSafe i e tx = true) :
     let redeem := p2pkhScript (hashes.hash160 key)
     verifyScript (txCtx hashes ecdsa (apply e tx) i) fl (p2shScriptSig (p2pkhScriptSig (body ++ [ht]) key) redeem)
         (p2shScript (hashes.hash160 redeem)) =
@@ -668,7 +709,7 @@ theorem p2sh_p2pkh_uncommitted_edit_same_verdict (body : Bytes) (ht : UInt8) (ke
   rw [show (txCtx hashes ecdsa tx i).env.hashes = hashes from rfl] at e2
   rw [e1, e2]
   show (if (txEnv hashes ecdsa (apply e tx) i).sigCheck _ _ _ _ = true then _ else _) = _
-  rw [sigCheck_uncommitted_edit hashes ecdsa tx i e _ _ _ _ hU]
+  rw [sigCheck_uncommitted_edit hashes ecdsa tx i e _ _ _ _ hU hsafe]
   rfl
 
 theorem p2sh_multisig_uncommitted_edit_same_verdict (m : Nat) (keys sigs : List Bytes)
@@ -677,7 +718,8 @@ theorem p2sh_multisig_uncommitted_edit_same_verdict (m : Nat) (keys sigs : List 
     (hs : ∀ s ∈ sigs, s.length < 0x4c) (hs1 : ∀ s ∈ sigs, s.length ≠ 1)
     (hne : ∀ s ∈ sigs, ∀ k ∈ keys, s.length ≠ k.length)
     (hrl : (multisigScript m keys).length ≤ 520) (hhl : ∀ x, (hashes.hash160 x).length = 20)
-    (hU : ∀ s ∈ sigs, ∀ ht, s.getLast? = some ht → Uncommitted ht.toNat i e = true) :
+    (hU : ∀ s ∈ sigs, ∀ ht, s.getLast? = some ht → Uncommitted ht.toNat i e = true)
+    (hsafe : insertSafe i e tx = true) :
     let redeem := multisigScript m keys
     verifyScript (txCtx hashes ecdsa (apply e tx) i) fl (p2shScriptSig (multisigScriptSig sigs) redeem)
         (p2shScript (hashes.hash160 redeem)) =
@@ -698,13 +740,13 @@ theorem p2sh_multisig_uncommitted_edit_same_verdict (m : Nat) (keys sigs : List 
       greedy (chkSig (txCtx hashes ecdsa tx i).env (multisigScript m keys)) sigs.reverse keys.reverse := by
     apply greedy_congr
     intro s hs' k
-    exact chkSig_uncommitted_edit hashes ecdsa tx i e _ s k (hU s (by simpa using hs'))
+    exact chkSig_uncommitted_edit hashes ecdsa tx i e _ s k (hU s (by simpa using hs')) hsafe
   rw [this]
 
 theorem p2sh_p2pk_uncommitted_edit_same_verdict (body : Bytes) (ht : UInt8) (key : Bytes)
     (hfl : fl.admissible = true) (hp : fl.p2sh = true) (hk : key.length + 2 < 0x4c) (hs : body.length + 1 < 0x4c)
     (hhl : ∀ x, (hashes.hash160 x).length = 20) (hne : body.length + 1 ≠ key.length)
-    (hU : Uncommitted ht.toNat i e = true) :
+    (hU : Uncommitted ht.toNat i e = true) (hsafe : insertSafe i e tx = true) :
     verifyScript (txCtx hashes ecdsa (apply e tx) i) fl
         (p2shScriptSig (p2pkScriptSig (body ++ [ht])) (p2pkScript key)) (p2shScript (hashes.hash160 (p2pkScript key))) =
       verifyScript (txCtx hashes ecdsa tx i) fl
@@ -715,7 +757,7 @@ theorem p2sh_p2pk_uncommitted_edit_same_verdict (body : Bytes) (ht : UInt8) (key
   rw [show (txCtx hashes ecdsa tx i).env.hashes = hashes from rfl] at e2
   rw [e1, e2]
   show (if (txEnv hashes ecdsa (apply e tx) i).sigCheck _ _ _ _ = true then _ else _) = _
-  rw [sigCheck_uncommitted_edit hashes ecdsa tx i e _ _ _ _ hU]
+  rw [sigCheck_uncommitted_edit hashes ecdsa tx i e _ _ _ _ hU hsafe]
   rfl
 
 theorem p2sh_p2pk_committed_edit_rejects (body : Bytes) (ht : UInt8) (key : Bytes)
@@ -803,6 +845,146 @@ theorem p2sh_multisig_committed_edit_rejects (m : Nat) (keys sigs : List Bytes)
     · intro s hs' k hk'
       exact hf s (by simpa using hs') k (by simpa using hk')
   rw [this]; rfl
+
+/-! ### accepted before, rejected after
+
+  The `*_committed_edit_rejects` theorems above do not assume that the signature was valid for the
+  ORIGINAL transaction.  These do: `horacle` (the verifier accepts the signature for the original
+  digest — ECDSA correctness of the signer, a hypothesis) is added and the conclusion is the pair
+  "accepted before the edit ∧ VerifyScriptError after it". -/
+
+theorem p2pk_committed_edit_flips (body : Bytes) (ht : UInt8) (key : Bytes)
+    (hfl : fl.admissible = true) (hk : key.length < 0x4c) (hs : body.length + 1 < 0x4c)
+    (hne : body.length + 1 ≠ key.length)
+    (hC : Committed ht.toNat i e = true) (hch : changes ht.toNat i e tx)
+    (wf : WFc tx) (wf' : WFc (apply e tx)) (hr : Regular ht.toNat i tx) (hr' : Regular ht.toNat i (apply e tx))
+    (hcr : Crypto.hash256 (legacyPreimage (p2pkScript key) (apply e tx) i ht.toNat) =
+             Crypto.hash256 (legacyPreimage (p2pkScript key) tx i ht.toNat) →
+           legacyPreimage (p2pkScript key) (apply e tx) i ht.toNat = legacyPreimage (p2pkScript key) tx i ht.toNat)
+    (hunf : (legacySighash (p2pkScript key) (apply e tx) i ht.toNat).1 ≠ (legacySighash (p2pkScript key) tx i ht.toNat).1 →
+      ecdsa body key (legacySighash (p2pkScript key) (apply e tx) i ht.toNat).1 = false)
+    (horacle : ecdsa body key (legacySighash (p2pkScript key) tx i ht.toNat).1 = true) :
+    (verifyScript (txCtx hashes ecdsa tx i) fl (p2pkScriptSig (body ++ [ht])) (p2pkScript key) = .ok ()) ∧
+    (verifyScript (txCtx hashes ecdsa (apply e tx) i) fl (p2pkScriptSig (body ++ [ht])) (p2pkScript key) =
+      .error .verify) := by
+  exact ⟨template_accepts_p2pk (txCtx hashes ecdsa tx i) fl body ht key hfl (txCtx_sigTotal ..) hk hs hne horacle,
+    p2pk_committed_edit_rejects hashes ecdsa tx i e fl body ht key hfl hk hs hne hC hch wf wf' hr hr' hcr hunf⟩
+
+theorem p2pkh_committed_edit_flips (body : Bytes) (ht : UInt8) (key : Bytes)
+    (hfl : fl.admissible = true) (hk : key.length < 0x4c) (hs : body.length + 1 < 0x4c)
+    (hhl : (hashes.hash160 key).length = 20) (hne : body.length + 1 ≠ 20)
+    (hC : Committed ht.toNat i e = true) (hch : changes ht.toNat i e tx)
+    (wf : WFc tx) (wf' : WFc (apply e tx)) (hr : Regular ht.toNat i tx) (hr' : Regular ht.toNat i (apply e tx))
+    (hcr : Crypto.hash256 (legacyPreimage (p2pkhScript (hashes.hash160 key)) (apply e tx) i ht.toNat) =
+             Crypto.hash256 (legacyPreimage (p2pkhScript (hashes.hash160 key)) tx i ht.toNat) →
+           legacyPreimage (p2pkhScript (hashes.hash160 key)) (apply e tx) i ht.toNat =
+             legacyPreimage (p2pkhScript (hashes.hash160 key)) tx i ht.toNat)
+    (hunf : (legacySighash (p2pkhScript (hashes.hash160 key)) (apply e tx) i ht.toNat).1 ≠
+        (legacySighash (p2pkhScript (hashes.hash160 key)) tx i ht.toNat).1 →
+      ecdsa body key (legacySighash (p2pkhScript (hashes.hash160 key)) (apply e tx) i ht.toNat).1 = false)
+    (horacle : ecdsa body key (legacySighash (p2pkhScript (hashes.hash160 key)) tx i ht.toNat).1 = true) :
+    (verifyScript (txCtx hashes ecdsa tx i) fl (p2pkhScriptSig (body ++ [ht]) key)
+        (p2pkhScript (hashes.hash160 key)) = .ok ()) ∧
+    (verifyScript (txCtx hashes ecdsa (apply e tx) i) fl (p2pkhScriptSig (body ++ [ht]) key)
+        (p2pkhScript (hashes.hash160 key)) = .error .verify) := by
+  exact ⟨template_accepts_p2pkh (txCtx hashes ecdsa tx i) fl body ht key hfl (txCtx_sigTotal ..) hk hs hhl hne horacle,
+    p2pkh_committed_edit_rejects hashes ecdsa tx i e fl body ht key hfl hk hs hhl hne hC hch wf wf' hr hr' hcr hunf⟩
+
+theorem multisig_committed_edit_flips (m : Nat) (keys sigs : List Bytes)
+    (hfl : fl.admissible = true) (hm1 : 1 ≤ m) (hmn : m ≤ keys.length) (hn : keys.length ≤ 20)
+    (hsl : sigs.length = m) (hk : ∀ k ∈ keys, k.length < 0x4c) (hs : ∀ s ∈ sigs, s.length < 0x4c)
+    (hs1 : ∀ s ∈ sigs, s.length ≠ 1) (hne : ∀ s ∈ sigs, ∀ k ∈ keys, s.length ≠ k.length)
+    (wf : WFc tx) (wf' : WFc (apply e tx))
+    (hB : ∀ s ∈ sigs, ∀ ht, s.getLast? = some ht →
+      Committed ht.toNat i e = true ∧ changes ht.toNat i e tx ∧ Regular ht.toNat i tx ∧
+      Regular ht.toNat i (apply e tx) ∧
+      (Crypto.hash256 (legacyPreimage (multisigScript m keys) (apply e tx) i ht.toNat) =
+          Crypto.hash256 (legacyPreimage (multisigScript m keys) tx i ht.toNat) →
+        legacyPreimage (multisigScript m keys) (apply e tx) i ht.toNat =
+          legacyPreimage (multisigScript m keys) tx i ht.toNat) ∧
+      (∀ k ∈ keys, (legacySighash (multisigScript m keys) (apply e tx) i ht.toNat).1 ≠
+          (legacySighash (multisigScript m keys) tx i ht.toNat).1 →
+        ecdsa s.dropLast k (legacySighash (multisigScript m keys) (apply e tx) i ht.toNat).1 = false))
+    (horacle : Matching (chkSig (txEnv hashes ecdsa tx i) (multisigScript m keys)) sigs keys) :
+    (verifyScript (txCtx hashes ecdsa tx i) fl (multisigScriptSig sigs) (multisigScript m keys) = .ok ()) ∧
+    (verifyScript (txCtx hashes ecdsa (apply e tx) i) fl (multisigScriptSig sigs) (multisigScript m keys) =
+      .error .verify) := by
+  exact ⟨template_accepts_multisig (txCtx hashes ecdsa tx i) fl m keys sigs hfl (txCtx_sigTotal ..) hm1 hmn hn hsl hk hs hs1 hne horacle,
+    multisig_committed_edit_rejects hashes ecdsa tx i e fl m keys sigs hfl hm1 hmn hn hsl hk hs hs1 hne wf wf' hB⟩
+
+theorem p2sh_p2pk_committed_edit_flips (body : Bytes) (ht : UInt8) (key : Bytes)
+    (hfl : fl.admissible = true) (hp : fl.p2sh = true) (hk : key.length + 2 < 0x4c) (hs : body.length + 1 < 0x4c)
+    (hhl : ∀ x, (hashes.hash160 x).length = 20) (hne : body.length + 1 ≠ key.length)
+    (hC : Committed ht.toNat i e = true) (hch : changes ht.toNat i e tx)
+    (wf : WFc tx) (wf' : WFc (apply e tx)) (hr : Regular ht.toNat i tx) (hr' : Regular ht.toNat i (apply e tx))
+    (hcr : Crypto.hash256 (legacyPreimage (p2pkScript key) (apply e tx) i ht.toNat) =
+             Crypto.hash256 (legacyPreimage (p2pkScript key) tx i ht.toNat) →
+           legacyPreimage (p2pkScript key) (apply e tx) i ht.toNat = legacyPreimage (p2pkScript key) tx i ht.toNat)
+    (hunf : (legacySighash (p2pkScript key) (apply e tx) i ht.toNat).1 ≠ (legacySighash (p2pkScript key) tx i ht.toNat).1 →
+      ecdsa body key (legacySighash (p2pkScript key) (apply e tx) i ht.toNat).1 = false)
+    (horacle : ecdsa body key (legacySighash (p2pkScript key) tx i ht.toNat).1 = true) :
+    (verifyScript (txCtx hashes ecdsa tx i) fl
+        (p2shScriptSig (p2pkScriptSig (body ++ [ht])) (p2pkScript key)) (p2shScript (hashes.hash160 (p2pkScript key))) = .ok ()) ∧
+    (verifyScript (txCtx hashes ecdsa (apply e tx) i) fl
+        (p2shScriptSig (p2pkScriptSig (body ++ [ht])) (p2pkScript key)) (p2shScript (hashes.hash160 (p2pkScript key))) =
+      .error .verify) := by
+  exact ⟨(by
+    have := p2sh_p2pk_verify (txCtx hashes ecdsa tx i) fl body ht key hfl hp (txCtx_sigTotal ..) hk hs hhl hne
+    rw [show (txCtx hashes ecdsa tx i).env.hashes = hashes from rfl] at this
+    rw [this]; exact if_pos horacle),
+    p2sh_p2pk_committed_edit_rejects hashes ecdsa tx i e fl body ht key hfl hp hk hs hhl hne hC hch wf wf' hr hr' hcr hunf⟩
+
+theorem p2sh_p2pkh_committed_edit_flips (body : Bytes) (ht : UInt8) (key : Bytes)
+    (hfl : fl.admissible = true) (hp : fl.p2sh = true) (hk : key.length < 0x4c) (hs : body.length + 1 < 0x4c)
+    (hhl : ∀ x, (hashes.hash160 x).length = 20) (hne : body.length + 1 ≠ 20)
+    (hC : Committed ht.toNat i e = true) (hch : changes ht.toNat i e tx)
+    (wf : WFc tx) (wf' : WFc (apply e tx)) (hr : Regular ht.toNat i tx) (hr' : Regular ht.toNat i (apply e tx))
+    (hcr : Crypto.hash256 (legacyPreimage (p2pkhScript (hashes.hash160 key)) (apply e tx) i ht.toNat) =
+             Crypto.hash256 (legacyPreimage (p2pkhScript (hashes.hash160 key)) tx i ht.toNat) →
+           legacyPreimage (p2pkhScript (hashes.hash160 key)) (apply e tx) i ht.toNat =
+             legacyPreimage (p2pkhScript (hashes.hash160 key)) tx i ht.toNat)
+    (hunf : (legacySighash (p2pkhScript (hashes.hash160 key)) (apply e tx) i ht.toNat).1 ≠
+        (legacySighash (p2pkhScript (hashes.hash160 key)) tx i ht.toNat).1 →
+      ecdsa body key (legacySighash (p2pkhScript (hashes.hash160 key)) (apply e tx) i ht.toNat).1 = false)
+    (horacle : ecdsa body key (legacySighash (p2pkhScript (hashes.hash160 key)) tx i ht.toNat).1 = true) :
+    let redeem := p2pkhScript (hashes.hash160 key)
+    (verifyScript (txCtx hashes ecdsa tx i) fl (p2shScriptSig (p2pkhScriptSig (body ++ [ht]) key) redeem)
+        (p2shScript (hashes.hash160 redeem)) = .ok ()) ∧
+    (verifyScript (txCtx hashes ecdsa (apply e tx) i) fl (p2shScriptSig (p2pkhScriptSig (body ++ [ht]) key) redeem)
+        (p2shScript (hashes.hash160 redeem)) = .error .verify) := by
+  intro redeem
+  exact ⟨(by
+    have := p2sh_p2pkh_verify (txCtx hashes ecdsa tx i) fl body ht key hfl hp (txCtx_sigTotal ..) hk hs hhl hne
+    rw [show (txCtx hashes ecdsa tx i).env.hashes = hashes from rfl] at this
+    rw [this]; exact if_pos horacle),
+    p2sh_p2pkh_committed_edit_rejects hashes ecdsa tx i e fl body ht key hfl hp hk hs hhl hne hC hch wf wf' hr hr' hcr hunf⟩
+
+theorem p2sh_multisig_committed_edit_flips (m : Nat) (keys sigs : List Bytes)
+    (hfl : fl.admissible = true) (hp : fl.p2sh = true) (hm1 : 1 ≤ m) (hmn : m ≤ keys.length)
+    (hn : keys.length ≤ 20) (hsl : sigs.length = m) (hk : ∀ k ∈ keys, k.length < 0x4c)
+    (hs : ∀ s ∈ sigs, s.length < 0x4c) (hs1 : ∀ s ∈ sigs, s.length ≠ 1)
+    (hne : ∀ s ∈ sigs, ∀ k ∈ keys, s.length ≠ k.length)
+    (hrl : (multisigScript m keys).length ≤ 520) (hhl : ∀ x, (hashes.hash160 x).length = 20)
+    (wf : WFc tx) (wf' : WFc (apply e tx))
+    (hB : ∀ s ∈ sigs, ∀ ht, s.getLast? = some ht →
+      Committed ht.toNat i e = true ∧ changes ht.toNat i e tx ∧ Regular ht.toNat i tx ∧
+      Regular ht.toNat i (apply e tx) ∧
+      (Crypto.hash256 (legacyPreimage (multisigScript m keys) (apply e tx) i ht.toNat) =
+          Crypto.hash256 (legacyPreimage (multisigScript m keys) tx i ht.toNat) →
+        legacyPreimage (multisigScript m keys) (apply e tx) i ht.toNat =
+          legacyPreimage (multisigScript m keys) tx i ht.toNat) ∧
+      (∀ k ∈ keys, (legacySighash (multisigScript m keys) (apply e tx) i ht.toNat).1 ≠
+          (legacySighash (multisigScript m keys) tx i ht.toNat).1 →
+        ecdsa s.dropLast k (legacySighash (multisigScript m keys) (apply e tx) i ht.toNat).1 = false))
+    (horacle : Matching (chkSig (txEnv hashes ecdsa tx i) (multisigScript m keys)) sigs keys) :
+    let redeem := multisigScript m keys
+    (verifyScript (txCtx hashes ecdsa tx i) fl (p2shScriptSig (multisigScriptSig sigs) redeem)
+        (p2shScript (hashes.hash160 redeem)) = .ok ()) ∧
+    (verifyScript (txCtx hashes ecdsa (apply e tx) i) fl (p2shScriptSig (multisigScriptSig sigs) redeem)
+        (p2shScript (hashes.hash160 redeem)) = .error .verify) := by
+  intro redeem
+  exact ⟨(p2sh_multisig_verify (txCtx hashes ecdsa tx i) fl m keys sigs hfl hp (txCtx_sigTotal ..) hm1 hmn hn hsl hk hs hs1 hne hrl hhl).1 horacle,
+    p2sh_multisig_committed_edit_rejects hashes ecdsa tx i e fl m keys sigs hfl hp hm1 hmn hn hsl hk hs hs1 hne hrl hhl wf wf' hB⟩
 
 end edits
 
@@ -1056,17 +1238,17 @@ theorem p2sh_multisig_real_eq_reference (m : Nat) (keys sigs : List Bytes)
 theorem p2pk_uncommitted_edit_same_verdict_real (body : Bytes) (ht : UInt8) (key : Bytes)
     (hfl : fl.admissible = true) (hwf : FieldsWF tx) (hwf' : FieldsWF (apply e tx))
     (hk : key.length < 0x4c) (hs : body.length + 1 < 0x4c) (hne : body.length + 1 ≠ key.length)
-    (hU : Uncommitted ht.toNat i e = true) :
+    (hU : Uncommitted ht.toNat i e = true) (hsafe : insertSafe i e tx = true) :
     verifyScript (realCtx (apply e tx) (i : Int)) fl (p2pkScriptSig (body ++ [ht])) (p2pkScript key) =
       verifyScript (realCtx tx (i : Int)) fl (p2pkScriptSig (body ++ [ht])) (p2pkScript key) := by
   rw [p2pk_real_eq_reference _ i fl body ht key hfl hwf' hk hs hne,
     p2pk_real_eq_reference _ i fl body ht key hfl hwf hk hs hne]
-  exact p2pk_uncommitted_edit_same_verdict realHashes ecdsaCheck tx i e fl body ht key hfl hk hs hne hU
+  exact p2pk_uncommitted_edit_same_verdict realHashes ecdsaCheck tx i e fl body ht key hfl hk hs hne hU hsafe
 
 theorem p2pkh_uncommitted_edit_same_verdict_real (body : Bytes) (ht : UInt8) (key : Bytes)
     (hfl : fl.admissible = true) (hwf : FieldsWF tx) (hwf' : FieldsWF (apply e tx))
     (hk : key.length < 0x4c) (hs : body.length + 1 < 0x4c) (hne : body.length + 1 ≠ 20)
-    (hU : Uncommitted ht.toNat i e = true) :
+    (hU : Uncommitted ht.toNat i e = true) (hsafe : insertSafe i e tx = true) :
     verifyScript (realCtx (apply e tx) (i : Int)) fl (p2pkhScriptSig (body ++ [ht]) key)
         (p2pkhScript (realHashes.hash160 key)) =
       verifyScript (realCtx tx (i : Int)) fl (p2pkhScriptSig (body ++ [ht]) key)
@@ -1074,25 +1256,26 @@ theorem p2pkh_uncommitted_edit_same_verdict_real (body : Bytes) (ht : UInt8) (ke
   rw [p2pkh_real_eq_reference _ i fl body ht key hfl hwf' hk hs hne,
     p2pkh_real_eq_reference _ i fl body ht key hfl hwf hk hs hne]
   exact p2pkh_uncommitted_edit_same_verdict realHashes ecdsaCheck tx i e fl body ht key hfl hk hs
-    (realHashes_hash160_length key) hne hU
+    (realHashes_hash160_length key) hne hU hsafe
 
 theorem multisig_uncommitted_edit_same_verdict_real (m : Nat) (keys sigs : List Bytes)
     (hfl : fl.admissible = true) (hwf : FieldsWF tx) (hwf' : FieldsWF (apply e tx))
     (hm1 : 1 ≤ m) (hmn : m ≤ keys.length) (hn : keys.length ≤ 20)
     (hsl : sigs.length = m) (hk : ∀ k ∈ keys, k.length < 0x4c) (hs : ∀ s ∈ sigs, s.length < 0x4c)
     (hs1 : ∀ s ∈ sigs, s.length ≠ 1) (hne : ∀ s ∈ sigs, ∀ k ∈ keys, s.length ≠ k.length)
-    (hU : ∀ s ∈ sigs, ∀ ht, s.getLast? = some ht → Uncommitted ht.toNat i e = true) :
+    (hU : ∀ s ∈ sigs, ∀ ht, s.getLast? = some ht → Uncommitted ht.toNat i e = true)
+    (hsafe : insertSafe i e tx = true) :
     verifyScript (realCtx (apply e tx) (i : Int)) fl (multisigScriptSig sigs) (multisigScript m keys) =
       verifyScript (realCtx tx (i : Int)) fl (multisigScriptSig sigs) (multisigScript m keys) := by
   rw [multisig_real_eq_reference _ i fl m keys sigs hfl hwf' hm1 hmn hn hsl hk hs hs1 hne,
     multisig_real_eq_reference _ i fl m keys sigs hfl hwf hm1 hmn hn hsl hk hs hs1 hne]
   exact multisig_uncommitted_edit_same_verdict realHashes ecdsaCheck tx i e fl m keys sigs hfl hm1 hmn hn hsl hk hs
-    hs1 hne hU
+    hs1 hne hU hsafe
 
 theorem p2sh_p2pk_uncommitted_edit_same_verdict_real (body : Bytes) (ht : UInt8) (key : Bytes)
     (hfl : fl.admissible = true) (hp : fl.p2sh = true) (hwf : FieldsWF tx) (hwf' : FieldsWF (apply e tx))
     (hk : key.length + 2 < 0x4c) (hs : body.length + 1 < 0x4c) (hne : body.length + 1 ≠ key.length)
-    (hU : Uncommitted ht.toNat i e = true) :
+    (hU : Uncommitted ht.toNat i e = true) (hsafe : insertSafe i e tx = true) :
     verifyScript (realCtx (apply e tx) (i : Int)) fl
         (p2shScriptSig (p2pkScriptSig (body ++ [ht])) (p2pkScript key)) (p2shScript (realHashes.hash160 (p2pkScript key))) =
       verifyScript (realCtx tx (i : Int)) fl
@@ -1100,12 +1283,12 @@ theorem p2sh_p2pk_uncommitted_edit_same_verdict_real (body : Bytes) (ht : UInt8)
   rw [p2sh_p2pk_real_eq_reference _ i fl body ht key hfl hp hwf' hk hs hne,
     p2sh_p2pk_real_eq_reference _ i fl body ht key hfl hp hwf hk hs hne]
   exact p2sh_p2pk_uncommitted_edit_same_verdict realHashes ecdsaCheck tx i e fl body ht key hfl hp hk hs
-    realHashes_hash160_length hne hU
+    realHashes_hash160_length hne hU hsafe
 
 theorem p2sh_p2pkh_uncommitted_edit_same_verdict_real (body : Bytes) (ht : UInt8) (key : Bytes)
     (hfl : fl.admissible = true) (hp : fl.p2sh = true) (hwf : FieldsWF tx) (hwf' : FieldsWF (apply e tx))
     (hk : key.length < 0x4c) (hs : body.length + 1 < 0x4c) (hne : body.length + 1 ≠ 20)
-    (hU : Uncommitted ht.toNat i e = true) :
+    (hU : Uncommitted ht.toNat i e = true) (hsafe : insertSafe i e tx = true) :
     let redeem := p2pkhScript (realHashes.hash160 key)
     verifyScript (realCtx (apply e tx) (i : Int)) fl (p2shScriptSig (p2pkhScriptSig (body ++ [ht]) key) redeem)
         (p2shScript (realHashes.hash160 redeem)) =
@@ -1117,14 +1300,15 @@ theorem p2sh_p2pkh_uncommitted_edit_same_verdict_real (body : Bytes) (ht : UInt8
   simp only at a b
   rw [a, b]
   exact p2sh_p2pkh_uncommitted_edit_same_verdict realHashes ecdsaCheck tx i e fl body ht key hfl hp hk hs
-    realHashes_hash160_length hne hU
+    realHashes_hash160_length hne hU hsafe
 
 theorem p2sh_multisig_uncommitted_edit_same_verdict_real (m : Nat) (keys sigs : List Bytes)
     (hfl : fl.admissible = true) (hp : fl.p2sh = true) (hwf : FieldsWF tx) (hwf' : FieldsWF (apply e tx))
     (hm1 : 1 ≤ m) (hmn : m ≤ keys.length) (hn : keys.length ≤ 20) (hsl : sigs.length = m)
     (hk : ∀ k ∈ keys, k.length < 0x4c) (hs : ∀ s ∈ sigs, s.length < 0x4c) (hs1 : ∀ s ∈ sigs, s.length ≠ 1)
     (hne : ∀ s ∈ sigs, ∀ k ∈ keys, s.length ≠ k.length) (hrl : (multisigScript m keys).length ≤ 520)
-    (hU : ∀ s ∈ sigs, ∀ ht, s.getLast? = some ht → Uncommitted ht.toNat i e = true) :
+    (hU : ∀ s ∈ sigs, ∀ ht, s.getLast? = some ht → Uncommitted ht.toNat i e = true)
+    (hsafe : insertSafe i e tx = true) :
     let redeem := multisigScript m keys
     verifyScript (realCtx (apply e tx) (i : Int)) fl (p2shScriptSig (multisigScriptSig sigs) redeem)
         (p2shScript (realHashes.hash160 redeem)) =
@@ -1136,9 +1320,10 @@ theorem p2sh_multisig_uncommitted_edit_same_verdict_real (m : Nat) (keys sigs : 
   simp only at a b
   rw [a, b]
   exact p2sh_multisig_uncommitted_edit_same_verdict realHashes ecdsaCheck tx i e fl m keys sigs hfl hp hm1 hmn hn hsl
-    hk hs hs1 hne hrl realHashes_hash160_length hU
+    hk hs hs1 hne hrl realHashes_hash160_length hU hsafe
 
-/-! committed edits, real environment: `hunf` now speaks about the real verifier `Real.ecdsaCheck` -/
+/-! committed edits, real environment: `hunf` now speaks about the real verifier `Real.ecdsaCheck`
+    (same remark: composition of `committed_edit_changes_digest` with the template's closed form) -/
 
 theorem p2pk_committed_edit_rejects_real (body : Bytes) (ht : UInt8) (key : Bytes)
     (hfl : fl.admissible = true) (hk : key.length < 0x4c) (hs : body.length + 1 < 0x4c)
@@ -1260,6 +1445,136 @@ theorem p2sh_multisig_committed_edit_rejects_real (m : Nat) (keys sigs : List By
   exact p2sh_multisig_committed_edit_rejects realHashes ecdsaCheck tx i e fl m keys sigs hfl hp hm1 hmn hn hsl hk hs
     hs1 hne hrl realHashes_hash160_length wf wf' hB
 
+/-! accepted before ∧ rejected after, real environment -/
+
+theorem p2pk_committed_edit_flips_real (body : Bytes) (ht : UInt8) (key : Bytes)
+    (hfl : fl.admissible = true) (hk : key.length < 0x4c) (hs : body.length + 1 < 0x4c)
+    (hne : body.length + 1 ≠ key.length)
+    (hC : Committed ht.toNat i e = true) (hch : changes ht.toNat i e tx)
+    (wf : WFc tx) (wf' : WFc (apply e tx)) (hr : Regular ht.toNat i tx) (hr' : Regular ht.toNat i (apply e tx))
+    (hcr : Crypto.hash256 (legacyPreimage (p2pkScript key) (apply e tx) i ht.toNat) =
+             Crypto.hash256 (legacyPreimage (p2pkScript key) tx i ht.toNat) →
+           legacyPreimage (p2pkScript key) (apply e tx) i ht.toNat = legacyPreimage (p2pkScript key) tx i ht.toNat)
+    (hunf : (legacySighash (p2pkScript key) (apply e tx) i ht.toNat).1 ≠ (legacySighash (p2pkScript key) tx i ht.toNat).1 →
+      ecdsaCheck body key (legacySighash (p2pkScript key) (apply e tx) i ht.toNat).1 = false)
+    (horacle : ecdsaCheck body key (legacySighash (p2pkScript key) tx i ht.toNat).1 = true) :
+    (verifyScript (realCtx tx (i : Int)) fl (p2pkScriptSig (body ++ [ht])) (p2pkScript key) = .ok ()) ∧
+    (verifyScript (realCtx (apply e tx) (i : Int)) fl (p2pkScriptSig (body ++ [ht])) (p2pkScript key) =
+      .error .verify) := by
+  exact ⟨(by rw [p2pk_verify_real tx i fl body ht key hfl (fieldsWF_of_WFc wf) hk hs hne]; exact if_pos horacle),
+    p2pk_committed_edit_rejects_real tx i e fl body ht key hfl hk hs hne hC hch wf wf' hr hr' hcr hunf⟩
+
+theorem p2pkh_committed_edit_flips_real (body : Bytes) (ht : UInt8) (key : Bytes)
+    (hfl : fl.admissible = true) (hk : key.length < 0x4c) (hs : body.length + 1 < 0x4c) (hne : body.length + 1 ≠ 20)
+    (hC : Committed ht.toNat i e = true) (hch : changes ht.toNat i e tx)
+    (wf : WFc tx) (wf' : WFc (apply e tx)) (hr : Regular ht.toNat i tx) (hr' : Regular ht.toNat i (apply e tx))
+    (hcr : Crypto.hash256 (legacyPreimage (p2pkhScript (realHashes.hash160 key)) (apply e tx) i ht.toNat) =
+             Crypto.hash256 (legacyPreimage (p2pkhScript (realHashes.hash160 key)) tx i ht.toNat) →
+           legacyPreimage (p2pkhScript (realHashes.hash160 key)) (apply e tx) i ht.toNat =
+             legacyPreimage (p2pkhScript (realHashes.hash160 key)) tx i ht.toNat)
+    (hunf : (legacySighash (p2pkhScript (realHashes.hash160 key)) (apply e tx) i ht.toNat).1 ≠
+        (legacySighash (p2pkhScript (realHashes.hash160 key)) tx i ht.toNat).1 →
+      ecdsaCheck body key (legacySighash (p2pkhScript (realHashes.hash160 key)) (apply e tx) i ht.toNat).1 = false)
+    (horacle : ecdsaCheck body key (legacySighash (p2pkhScript (realHashes.hash160 key)) tx i ht.toNat).1 = true) :
+    (verifyScript (realCtx tx (i : Int)) fl (p2pkhScriptSig (body ++ [ht]) key)
+        (p2pkhScript (realHashes.hash160 key)) = .ok ()) ∧
+    (verifyScript (realCtx (apply e tx) (i : Int)) fl (p2pkhScriptSig (body ++ [ht]) key)
+        (p2pkhScript (realHashes.hash160 key)) = .error .verify) := by
+  exact ⟨(by rw [p2pkh_verify_real tx i fl body ht key hfl (fieldsWF_of_WFc wf) hk hs hne]; exact if_pos horacle),
+    p2pkh_committed_edit_rejects_real tx i e fl body ht key hfl hk hs hne hC hch wf wf' hr hr' hcr hunf⟩
+
+theorem multisig_committed_edit_flips_real (m : Nat) (keys sigs : List Bytes)
+    (hfl : fl.admissible = true) (hm1 : 1 ≤ m) (hmn : m ≤ keys.length) (hn : keys.length ≤ 20)
+    (hsl : sigs.length = m) (hk : ∀ k ∈ keys, k.length < 0x4c) (hs : ∀ s ∈ sigs, s.length < 0x4c)
+    (hs1 : ∀ s ∈ sigs, s.length ≠ 1) (hne : ∀ s ∈ sigs, ∀ k ∈ keys, s.length ≠ k.length)
+    (wf : WFc tx) (wf' : WFc (apply e tx))
+    (hB : ∀ s ∈ sigs, ∀ ht, s.getLast? = some ht →
+      Committed ht.toNat i e = true ∧ changes ht.toNat i e tx ∧ Regular ht.toNat i tx ∧
+      Regular ht.toNat i (apply e tx) ∧
+      (Crypto.hash256 (legacyPreimage (multisigScript m keys) (apply e tx) i ht.toNat) =
+          Crypto.hash256 (legacyPreimage (multisigScript m keys) tx i ht.toNat) →
+        legacyPreimage (multisigScript m keys) (apply e tx) i ht.toNat =
+          legacyPreimage (multisigScript m keys) tx i ht.toNat) ∧
+      (∀ k ∈ keys, (legacySighash (multisigScript m keys) (apply e tx) i ht.toNat).1 ≠
+          (legacySighash (multisigScript m keys) tx i ht.toNat).1 →
+        ecdsaCheck s.dropLast k (legacySighash (multisigScript m keys) (apply e tx) i ht.toNat).1 = false))
+    (horacle : Matching (chkSig (txEnv realHashes ecdsaCheck tx i) (multisigScript m keys)) sigs keys) :
+    (verifyScript (realCtx tx (i : Int)) fl (multisigScriptSig sigs) (multisigScript m keys) = .ok ()) ∧
+    (verifyScript (realCtx (apply e tx) (i : Int)) fl (multisigScriptSig sigs) (multisigScript m keys) =
+      .error .verify) := by
+  exact ⟨(multisig_verify_real tx i fl m keys sigs hfl (fieldsWF_of_WFc wf) hm1 hmn hn hsl hk hs hs1 hne).1 horacle,
+    multisig_committed_edit_rejects_real tx i e fl m keys sigs hfl hm1 hmn hn hsl hk hs hs1 hne wf wf' hB⟩
+
+theorem p2sh_p2pk_committed_edit_flips_real (body : Bytes) (ht : UInt8) (key : Bytes)
+    (hfl : fl.admissible = true) (hp : fl.p2sh = true) (hk : key.length + 2 < 0x4c) (hs : body.length + 1 < 0x4c)
+    (hne : body.length + 1 ≠ key.length)
+    (hC : Committed ht.toNat i e = true) (hch : changes ht.toNat i e tx)
+    (wf : WFc tx) (wf' : WFc (apply e tx)) (hr : Regular ht.toNat i tx) (hr' : Regular ht.toNat i (apply e tx))
+    (hcr : Crypto.hash256 (legacyPreimage (p2pkScript key) (apply e tx) i ht.toNat) =
+             Crypto.hash256 (legacyPreimage (p2pkScript key) tx i ht.toNat) →
+           legacyPreimage (p2pkScript key) (apply e tx) i ht.toNat = legacyPreimage (p2pkScript key) tx i ht.toNat)
+    (hunf : (legacySighash (p2pkScript key) (apply e tx) i ht.toNat).1 ≠ (legacySighash (p2pkScript key) tx i ht.toNat).1 →
+      ecdsaCheck body key (legacySighash (p2pkScript key) (apply e tx) i ht.toNat).1 = false)
+    (horacle : ecdsaCheck body key (legacySighash (p2pkScript key) tx i ht.toNat).1 = true) :
+    (verifyScript (realCtx tx (i : Int)) fl
+        (p2shScriptSig (p2pkScriptSig (body ++ [ht])) (p2pkScript key)) (p2shScript (realHashes.hash160 (p2pkScript key))) = .ok ()) ∧
+    (verifyScript (realCtx (apply e tx) (i : Int)) fl
+        (p2shScriptSig (p2pkScriptSig (body ++ [ht])) (p2pkScript key)) (p2shScript (realHashes.hash160 (p2pkScript key))) =
+      .error .verify) := by
+  exact ⟨(by rw [p2sh_p2pk_verify_real tx i fl body ht key hfl hp (fieldsWF_of_WFc wf) hk hs hne]; exact if_pos horacle),
+    p2sh_p2pk_committed_edit_rejects_real tx i e fl body ht key hfl hp hk hs hne hC hch wf wf' hr hr' hcr hunf⟩
+
+theorem p2sh_p2pkh_committed_edit_flips_real (body : Bytes) (ht : UInt8) (key : Bytes)
+    (hfl : fl.admissible = true) (hp : fl.p2sh = true) (hk : key.length < 0x4c) (hs : body.length + 1 < 0x4c)
+    (hne : body.length + 1 ≠ 20)
+    (hC : Committed ht.toNat i e = true) (hch : changes ht.toNat i e tx)
+    (wf : WFc tx) (wf' : WFc (apply e tx)) (hr : Regular ht.toNat i tx) (hr' : Regular ht.toNat i (apply e tx))
+    (hcr : Crypto.hash256 (legacyPreimage (p2pkhScript (realHashes.hash160 key)) (apply e tx) i ht.toNat) =
+             Crypto.hash256 (legacyPreimage (p2pkhScript (realHashes.hash160 key)) tx i ht.toNat) →
+           legacyPreimage (p2pkhScript (realHashes.hash160 key)) (apply e tx) i ht.toNat =
+             legacyPreimage (p2pkhScript (realHashes.hash160 key)) tx i ht.toNat)
+    (hunf : (legacySighash (p2pkhScript (realHashes.hash160 key)) (apply e tx) i ht.toNat).1 ≠
+        (legacySighash (p2pkhScript (realHashes.hash160 key)) tx i ht.toNat).1 →
+      ecdsaCheck body key (legacySighash (p2pkhScript (realHashes.hash160 key)) (apply e tx) i ht.toNat).1 = false)
+    (horacle : ecdsaCheck body key (legacySighash (p2pkhScript (realHashes.hash160 key)) tx i ht.toNat).1 = true) :
+    let redeem := p2pkhScript (realHashes.hash160 key)
+    (verifyScript (realCtx tx (i : Int)) fl (p2shScriptSig (p2pkhScriptSig (body ++ [ht]) key) redeem)
+        (p2shScript (realHashes.hash160 redeem)) = .ok ()) ∧
+    (verifyScript (realCtx (apply e tx) (i : Int)) fl (p2shScriptSig (p2pkhScriptSig (body ++ [ht]) key) redeem)
+        (p2shScript (realHashes.hash160 redeem)) = .error .verify) := by
+  intro redeem
+  exact ⟨(by
+    have := p2sh_p2pkh_verify_real tx i fl body ht key hfl hp (fieldsWF_of_WFc wf) hk hs hne
+    simp only at this
+    rw [this]; exact if_pos horacle),
+    p2sh_p2pkh_committed_edit_rejects_real tx i e fl body ht key hfl hp hk hs hne hC hch wf wf' hr hr' hcr hunf⟩
+
+theorem p2sh_multisig_committed_edit_flips_real (m : Nat) (keys sigs : List Bytes)
+    (hfl : fl.admissible = true) (hp : fl.p2sh = true) (hm1 : 1 ≤ m) (hmn : m ≤ keys.length)
+    (hn : keys.length ≤ 20) (hsl : sigs.length = m) (hk : ∀ k ∈ keys, k.length < 0x4c)
+    (hs : ∀ s ∈ sigs, s.length < 0x4c) (hs1 : ∀ s ∈ sigs, s.length ≠ 1)
+    (hne : ∀ s ∈ sigs, ∀ k ∈ keys, s.length ≠ k.length) (hrl : (multisigScript m keys).length ≤ 520)
+    (wf : WFc tx) (wf' : WFc (apply e tx))
+    (hB : ∀ s ∈ sigs, ∀ ht, s.getLast? = some ht →
+      Committed ht.toNat i e = true ∧ changes ht.toNat i e tx ∧ Regular ht.toNat i tx ∧
+      Regular ht.toNat i (apply e tx) ∧
+      (Crypto.hash256 (legacyPreimage (multisigScript m keys) (apply e tx) i ht.toNat) =
+          Crypto.hash256 (legacyPreimage (multisigScript m keys) tx i ht.toNat) →
+        legacyPreimage (multisigScript m keys) (apply e tx) i ht.toNat =
+          legacyPreimage (multisigScript m keys) tx i ht.toNat) ∧
+      (∀ k ∈ keys, (legacySighash (multisigScript m keys) (apply e tx) i ht.toNat).1 ≠
+          (legacySighash (multisigScript m keys) tx i ht.toNat).1 →
+        ecdsaCheck s.dropLast k (legacySighash (multisigScript m keys) (apply e tx) i ht.toNat).1 = false))
+    (horacle : Matching (chkSig (txEnv realHashes ecdsaCheck tx i) (multisigScript m keys)) sigs keys) :
+    let redeem := multisigScript m keys
+    (verifyScript (realCtx tx (i : Int)) fl (p2shScriptSig (multisigScriptSig sigs) redeem)
+        (p2shScript (realHashes.hash160 redeem)) = .ok ()) ∧
+    (verifyScript (realCtx (apply e tx) (i : Int)) fl (p2shScriptSig (multisigScriptSig sigs) redeem)
+        (p2shScript (realHashes.hash160 redeem)) = .error .verify) := by
+  intro redeem
+  exact ⟨(p2sh_multisig_verify_real tx i fl m keys sigs hfl hp (fieldsWF_of_WFc wf) hm1 hmn hn hsl hk hs hs1 hne hrl).1 horacle,
+    p2sh_multisig_committed_edit_rejects_real tx i e fl m keys sigs hfl hp hm1 hmn hn hsl hk hs hs1 hne hrl wf wf' hB⟩
+
 end realedits
 
 /-! ### non-vacuity of Parts 2 and 3 -/
@@ -1370,7 +1685,7 @@ example : verifyScript (toyCtx (apply (.setValue 0 5) exTx)) exFlags
     (p2pkScriptSig (toySig (exKey 5) (exDigest exTx) ++ [0x83])) (p2pkScript (exKey 5)) = .ok () := by
   have h := p2pk_uncommitted_edit_same_verdict exEnv.hashes toyEcdsa exTx 1 (.setValue 0 5) exFlags
     (toySig (exKey 5) (exDigest exTx)) 0x83 (exKey 5) (by decide) (by decide)
-    (toySig_size 5 exTx (by decide)).1 (toySig_size 5 exTx (by decide)).2 (by decide)
+    (toySig_size 5 exTx (by decide)).1 (toySig_size 5 exTx (by decide)).2 (by decide) (by decide)
   show verifyScript (txCtx exEnv.hashes toyEcdsa (apply (.setValue 0 5) exTx) 1) _ _ _ = _
   rw [h]
   exact template_accepts_p2pk (toyCtx exTx) exFlags _ 0x83 (exKey 5) (by decide) (txCtx_sigTotal ..) (by decide)
@@ -1421,5 +1736,34 @@ example
       exact fun h => hne h.symm)
 
 end toy
+
+/-! ### a `_real` theorem instantiated: everything discharged but the cryptographic hypotheses -/
+
+section realexample
+open BtcVerif.Model.ScriptEval BtcVerif.Spec.Script BtcVerif.Spec.Templates BtcVerif.C05T
+open BtcVerif.Model.ScriptEval.Real
+
+/-- the model of the library (`Real.realCtx`: modelled RawSignatureHash + Lean ECDSA + real hashes),
+    pay-to-pubkey, input 1 of `exTx`, SINGLE|ANYONECANPAY, output 1 edited: all structural hypotheses
+    of `p2pk_committed_edit_flips_real` hold; what remains are exactly the three cryptographic ones —
+    the verifier accepts the signature for the original digest (`horacle`), SHA-256d does not collide
+    on the two messages (`hcr`), the kept signature does not verify for the new digest (`hunf`) -/
+example (body : Bytes) (hs : body.length + 1 < 0x4c) (hne : body.length + 1 ≠ 33)
+    (horacle : ecdsaCheck body (exKey 5) (legacySighash (p2pkScript (exKey 5)) exTx 1 (0x83 : UInt8).toNat).1 = true)
+    (hcr : Crypto.hash256 (legacyPreimage (p2pkScript (exKey 5)) (apply (.setValue 1 5) exTx) 1 (0x83 : UInt8).toNat) =
+             Crypto.hash256 (legacyPreimage (p2pkScript (exKey 5)) exTx 1 (0x83 : UInt8).toNat) →
+           legacyPreimage (p2pkScript (exKey 5)) (apply (.setValue 1 5) exTx) 1 (0x83 : UInt8).toNat =
+             legacyPreimage (p2pkScript (exKey 5)) exTx 1 (0x83 : UInt8).toNat)
+    (hunf : (legacySighash (p2pkScript (exKey 5)) (apply (.setValue 1 5) exTx) 1 (0x83 : UInt8).toNat).1 ≠
+        (legacySighash (p2pkScript (exKey 5)) exTx 1 (0x83 : UInt8).toNat).1 →
+      ecdsaCheck body (exKey 5) (legacySighash (p2pkScript (exKey 5)) (apply (.setValue 1 5) exTx) 1 (0x83 : UInt8).toNat).1 = false) :
+    verifyScript (realCtx exTx (1 : Nat)) exFlags (p2pkScriptSig (body ++ [0x83])) (p2pkScript (exKey 5)) = .ok () ∧
+    verifyScript (realCtx (apply (.setValue 1 5) exTx) (1 : Nat)) exFlags (p2pkScriptSig (body ++ [0x83]))
+      (p2pkScript (exKey 5)) = .error .verify :=
+  p2pk_committed_edit_flips_real exTx 1 (.setValue 1 5) exFlags body 0x83 (exKey 5) (by decide) (by decide) hs
+    (by simpa [exKey] using hne) (by decide) ⟨.value 1, by decide, by decide⟩ exTx_wf exTx_edited_wf (by decide)
+    (by decide) hcr hunf horacle
+
+end realexample
 
 end BtcVerif.C05
